@@ -33,6 +33,9 @@ type compiler struct {
 	program *ast.Program
 	curStmt ast.Statement
 	inCheck bool
+	// blockExit is the break or continue that ended a helper's block during
+	// the statement being evaluated
+	blockExit exitBlockStatment
 }
 
 func (c *compiler) compile() (string, error) {
@@ -69,6 +72,7 @@ func (c *compiler) compile() (string, error) {
 		}
 
 		c.write(bb, res)
+		c.blockExit = nil
 	}
 
 	return bb.String(), nil
@@ -110,6 +114,14 @@ func (c *compiler) write(bb *strings.Builder, i interface{}) {
 			c.write(bb, ii)
 		}
 	case returnObject:
+		for _, ii := range t.Value {
+			c.write(bb, ii)
+		}
+	case continueObject:
+		for _, ii := range t.Value {
+			c.write(bb, ii)
+		}
+	case breakObject:
 		for _, ii := range t.Value {
 			c.write(bb, ii)
 		}
@@ -769,6 +781,8 @@ func (c *compiler) stringsOperator(l string, r interface{}, op string) (interfac
 
 func (c *compiler) evalCallExpression(node *ast.CallExpression) (interface{}, error) {
 	var rv reflect.Value
+	// set by the helper context when the call's block ends with break or continue
+	var blockExit exitBlockStatment
 
 	if node.Callee != nil {
 		c, err := c.evalExpression(node.Callee)
@@ -871,6 +885,7 @@ func (c *compiler) evalCallExpression(node *ast.CallExpression) (interface{}, er
 					Context:  c.ctx,
 					compiler: c,
 					block:    node.Block,
+					exit:     &blockExit,
 				}
 				harg := reflect.ValueOf(hargs)
 				if harg.Type().AssignableTo(arg) {
@@ -977,6 +992,9 @@ func (c *compiler) evalCallExpression(node *ast.CallExpression) (interface{}, er
 	}
 
 	res := rv.Call(args)
+	if blockExit != nil {
+		c.blockExit = blockExit
+	}
 	if len(res) > 0 {
 		if e, ok := res[len(res)-1].Interface().(error); ok {
 			return nil, fmt.Errorf("could not call %s function: %w", node.Function, e)
@@ -1155,6 +1173,22 @@ func (c *compiler) evalBlockStatements(node *ast.BlockStatement) (interface{}, e
 		i, err := c.evalStatement(s)
 		if err != nil {
 			return nil, err
+		}
+
+		if x := c.blockExit; x != nil {
+			// a helper's block inside this statement ended with break or continue:
+			// the statement's own result is kept and the exit takes effect here
+			c.blockExit = nil
+			var kept []interface{}
+			if i != nil {
+				kept = append(kept, i)
+			}
+			switch x.(type) {
+			case continueObject:
+				i = continueObject{Value: kept}
+			case breakObject:
+				i = breakObject{Value: kept}
+			}
 		}
 
 		val, exitBlock := i.(exitBlockStatment)
